@@ -403,3 +403,11 @@ package zygo
 
 //@ func (*Parser).ParseExpression
 //@ C01 loop 0 invariant extra >= 1 && extra <= len(lexer.tokens)
+
+// ===========================================================================
+// C08  a sandboxed interpreter cannot reach the outside world
+// ===========================================================================
+// What a sandboxed interpreter can enter: its constructor (which installs the
+// restricted builtin table), the standard setup the command-line tool applies,
+// and the evaluation entry points (compiler, VM and everything they call).
+//@ effects C08 roots NewZlispSandbox, (*Zlisp).StandardSetup, (*Zlisp).EvalString, (*Zlisp).LoadString, (*Zlisp).LoadExpressions, (*Zlisp).Run, (*Zlisp).EvalExpressions, (*Zlisp).ParseStream
